@@ -1,6 +1,7 @@
 """C20 — layers are transparent, honour Tower readiness; listeners only observe."""
 from ..core import graph, Call, peel, leaves, show, N
 from ..ready import Ready, is_inner_call, SERVICE_CALL, POLL_READY, CLONE
+from ..util import check_no_panicking_time_arith
 
 EXPLANATION = (
     "Decides structural clauses of C20 on the built MIR of every library crate: (READY) every "
@@ -47,6 +48,8 @@ def site_key(body, extra):
 
 
 def run(facts, tr, rep):
+    _n_ops = check_no_panicking_time_arith(facts, tr, rep, "C20.NO-PANIC-ARITH", [b_ for c_ in facts.crates.values() for b_ in c_.bodies])
+    rep.note("panicking Instant/Duration operators examined: %d" % _n_ops)
     R = Ready(facts, tr)
     impls = wrapping_service_impls(facts)
     rep.floor("C20.service-impls", len(impls), 14)
@@ -355,8 +358,21 @@ def _is_inner_future(tr, node, depth=0, seen=None):
         c = tr.call_of(node)
         if c.def_ == "tower_service::Service::call" and c.self_kind in ("param", "ref_param"):
             return True
-        if c.name in ("pin", "new", "into_future", "new_unchecked", "as_mut", "timeout") and c.args:
+        if c.name in ("pin", "new", "into_future", "new_unchecked", "as_mut", "timeout", "timeout_at") and c.args:
             return any(_is_inner_future(tr, tr.expand(tr.operand(c.g.b, a, c.loc), upvars=True, params=False), depth + 1, seen) for a in c.args)
+        # any library combinator that takes a future by value and returns a type parameterised by it
+        # (Timeout<F>, Fuse<F>, Map<F, _>, Pin<Box<F>>, Instrumented<F>, ...) still is that future
+        if c.args and not any(d in tr.facts.bodies for d in c.targets_def()) and not c.dest["p"]:
+            b = c.g.b
+            rty = b.local_ty(c.dest["l"])["s"]
+            for a in c.args:
+                pl = a.get("move")
+                if pl is None or pl["p"]:
+                    continue
+                aty = b.local_ty(pl["l"])["s"]
+                if len(aty) > 3 and aty in rty and aty != rty and \
+                        _is_inner_future(tr, tr.expand(tr.operand(b, a, c.loc), upvars=True, params=False), depth + 1, seen):
+                    return True
     if node[0] == "field" and node[3] and "Future" in str(node[3]):
         from ..util import agg_sites
         for (ab, i, j, rv) in agg_sites(tr.facts, node[3]):
